@@ -187,6 +187,8 @@ def run(run, binfo):
         b = a if rng.random() < 0.3 else expr_text(rng, rng.randint(1, 6))
         if rng.random() < 0.3:
             b = '( ' + a.replace(' and ', ' AND ').replace(' or ', '   OR ') + ' )' if rng.random() < 0.5 else '  ' + a
+        if rng.random() < 0.2:
+            b = rng.choice([a.upper(), a.swapcase(), a.title()])       # equality is by printed form, letter case included
         da, db = policy.RuleDefault('n', a), policy.RuleDefault('n', b)
         run.evaluations += 1
         if (da == db) != (str(da.check) == str(db.check)):
